@@ -28,12 +28,34 @@ func (e *env) pickAmt() int64 {
 // one random operation (mostly valid by construction; a malformed stream is mixed in)
 func (e *env) randomOp() {
 	r := e.r
-	u := 1 + r.Intn(NACC-1)
+	u := e.live[r.Intn(len(e.live))]
+	if r.Chance(5) {
+		u = 1 + r.Intn(NACC-1) // possibly an account that was rotated away: it holds nothing any more
+	}
 	v := r.Intn(2)
 	app := e.c.App
 	e.bk = []uint64{1, 1, 2}[r.Intn(3)]
 	pool := []string{"sp1", "sp1", "sp2"}[r.Intn(3)]
-	switch r.Intn(38) {
+	switch r.Intn(42) {
+	case 38:
+		// the validator account of pool 2 (a1 issued RR tokens in the setup) is rotated by a holder of at least half of them
+		holder := 1
+		if r.Chance(30) {
+			holder = u // usually holds too little: must be refused
+		}
+		if r.Chance(40) {
+			e.bankSend(1, u, "rr/node1", 6_000_000_000_000) // hand more than half to somebody else first
+			holder = u
+		}
+		e.rotateValidator(1, holder)
+	case 39:
+		if e.nRot < 4 && u >= 2 {
+			e.rotateAccount(u)
+		}
+	case 40:
+		e.multiDeposit(u, [][]string{{"sp1", "sp1"}, {"sp1", "sp2"}, {"sp2", "sp1", "sp2"}, {"sp1", "nosuchpool"}}[r.Intn(4)], []string{"ukex", "ubtc"}[r.Intn(2)], e.pickAmt())
+	case 41:
+		e.multiDelegate(u, v, stakable[r.Intn(2)], e.pickAmt(), 2+r.Intn(2))
 	case 30, 31:
 		// SpendingPoolWithdraw with 1..3 beneficiaries (a0 by role, a3, a4; sometimes a stranger) and 1..2 denominations
 		bens := [][]int{{3}, {3, 4}, {0, 3, 4}, {4, 0}, {0}, {3, 5}}[r.Intn(6)]
@@ -77,7 +99,7 @@ func (e *env) randomOp() {
 			if p, ok := e.poolOf(v); ok && app.BankKeeper.GetBalance(e.ctx(), e.accAddr(u), fmt.Sprintf("v%d/%s", p.Id, den)).Amount.IsPositive() {
 				break
 			}
-			u, v, den = 1+r.Intn(NACC-1), r.Intn(2), stakable[r.Intn(2)]
+			u, v, den = e.live[r.Intn(len(e.live))], r.Intn(2), stakable[r.Intn(2)]
 		}
 		p, ok := e.poolOf(v)
 		if !ok {
@@ -115,7 +137,7 @@ func (e *env) randomOp() {
 		}
 		who := u
 		if !r.Chance(25) { // mostly the owner
-			if id, ok := e.acc[un.Address]; ok && id >= 100 && id < 100+NACC {
+			if id, ok := e.acc[un.Address]; ok && id >= 100 && id < 100+int64(len(e.c.Accounts)) {
 				who = int(id - 100)
 			}
 		}
@@ -192,7 +214,7 @@ func (e *env) randomOp() {
 			target = rq.Address
 		}
 		if !r.Chance(20) {
-			if id, ok := e.acc[target]; ok && id >= 100 && id < 100+NACC {
+			if id, ok := e.acc[target]; ok && id >= 100 && id < 100+int64(len(e.c.Accounts)) {
 				who = int(id - 100)
 			}
 		}
@@ -222,7 +244,7 @@ func (e *env) randomOp() {
 	case 25:
 		e.collWithdraw([]int{3, u}[r.Intn(2)])
 	case 26:
-		e.bankSend(u, 1+r.Intn(NACC-1), natives[r.Intn(3)], e.pickAmt())
+		e.bankSend(u, e.live[r.Intn(len(e.live))], natives[r.Intn(3)], e.pickAmt())
 	case 27:
 		e.recBurn(1, r.Range(1, 1_000_000_000_000))
 	case 28:
@@ -253,6 +275,15 @@ func (e *env) randomHistory(blocks, opsPerBlock int) {
 			dt = 2_700_000 // beyond the unstaking period: undelegations mature
 		case 1:
 			dt = 20_000 // beyond the collective claim period
+		}
+		// probe the maturity of a pending undelegation at the boundary: one second early, exactly, one second late
+		if uns := e.c.App.MultiStakingKeeper.GetAllUndelegations(e.c.QueryCtx()); len(uns) > 0 && e.r.Chance(20) {
+			if d := int64(uns[e.r.Intn(len(uns))].Expiry) - e.c.Time.Unix() + []int64{-1, 0, 1}[e.r.Intn(3)]; d > 0 {
+				dt = d
+			}
+		}
+		if b > 0 && e.r.Chance(12) {
+			e.reimport()
 		}
 		e.begin(dt, e.r.Intn(2))
 		n := 1 + e.r.Intn(opsPerBlock)
@@ -349,6 +380,39 @@ func scenarioProposals(e *env) {
 	e.end()
 }
 
+// address rotation: x/recovery rewrites the records of other modules (staking pool, rewards, contributors, verify requests,
+// claim infos); afterwards every module must still hold what its records say, and a genesis export / re-import must reproduce them
+func scenarioRotation(e *env) {
+	e.setup()
+	e.begin(5, 0)
+	e.delegate(4, 1, "ukex", 8_000_000)
+	e.delegateCoins(3, 1, coins("ukex", 2_000_000).Add(coin("ubtc", 700_000)))
+	e.tipRequest(3, 4, 500)
+	e.undelegate(4, 1, "ukex", 3_000_000)
+	e.rotateValidator(1, 4) // a4 holds no RR tokens: refused
+	e.rotateValidator(1, 1)
+	e.delegate(4, 1, "ukex", 1_000)
+	e.undelegate(4, 1, "ukex", 500)
+	e.rewardAlloc(1, 50)
+	e.rotateAccount(3) // delegator, collective contributor, tip requester, spending beneficiary
+	e.rotateAccount(2) // dApp bonder, pool owner
+	n := len(e.c.Accounts) - 2
+	e.undelegate(n, 0, "ukex", 1_000_000)
+	e.tipCancel(n, 1)
+	e.collWithdraw(n)
+	e.dappReclaim(n+1, 1_000)
+	e.claimRewards(n)
+	e.end()
+	e.reimport()
+	e.begin(2_700_000, 1)
+	for _, un := range e.c.App.MultiStakingKeeper.GetAllUndelegations(e.ctx()) {
+		e.claimUndelegation(4, un.Id)
+		e.claimUndelegation(n, un.Id)
+	}
+	e.end()
+	e.reimport()
+}
+
 // layer2 MintIssueTx mints the native token
 func scenarioNativeIssue(e *env) {
 	e.setup()
@@ -397,7 +461,7 @@ func main() {
 	for _, sc := range []struct {
 		name string
 		f    func(*env)
-	}{{"scenario:slash_then_redeem", scenarioSlash}, {"scenario:reward_rounding", scenarioRounding}, {"scenario:native_issue", scenarioNativeIssue}, {"scenario:proposal_payouts", scenarioProposals}} {
+	}{{"scenario:slash_then_redeem", scenarioSlash}, {"scenario:reward_rounding", scenarioRounding}, {"scenario:native_issue", scenarioNativeIssue}, {"scenario:proposal_payouts", scenarioProposals}, {"scenario:rotation_reimport", scenarioRotation}} {
 		e := newEnv(seed, dist)
 		sc.f(e)
 		finish(e, sc.name, seed)
